@@ -94,6 +94,7 @@ def guards_at(P, b, bb):
                     out.append((op, args[0], args[1]))
                     out.append((op, args[1], args[0]))
             out.append(("call", nm, tuple(args), truth))
+    out.extend(tab.emptiness_facts(out))
     return out
 
 
@@ -1054,7 +1055,7 @@ def fold_total(P, b):
         consts = []
         for bb in b.reachable_blocks():
             for st in b.blocks[bb]["stmts"]:
-                if st["s"] == "assign" and st["rv"]["r"] == "bin":
+                if st["s"] == "assign" and st["rv"]["r"] == "bin" and st["rv"]["op"] in ("Lt", "Le", "Gt", "Ge", "Eq", "Ne"):
                     for side in ("a", "b"):
                         o = st["rv"][side]
                         if o.get("k") == "const" and "int" in o:
